@@ -234,3 +234,8 @@ def _counts_split(body, rem_bbs, weight):
 
 def _prefix(b, x):
     return b
+
+
+def run_thorough(F, chk):
+    import witness
+    witness.apply(chk, "R-C19-a-w", "UdpCapIsPrivate", "compile_fail witness: UdpManager.max_flows is private across crates")
